@@ -15,11 +15,22 @@ micro-step of a thread:
   `begin_session` (A.read, then `self.root()` = M), `Session` reads, drop / `finish` (A.read released),
   `Nomt::root`, `Nomt::read`, `FinishedSession::commit` / `try_commit_nonblocking`, `Overlay::commit` /
   `try_commit_nonblocking` (marker check under M *before* A.write, root check under A.write + M),
-  `rollback` (A.write, `truncate` pops the log, the inner session reads the root under M, its commit
-  re-checks the root under M, publishes, stores);
+  `rollback` (A.write, poison check — since the repair of F21 BEFORE the destructive step —, `truncate` pops the
+  log, the inner session reads the root under M, its commit checks poison and the root under M again, publishes,
+  stores);
 * the poison flag and the two failing I/O steps (`rollback.commit(delta)`, `store.commit`), decided by the
   environment per call (`IoPlan`);
-* Rust scope exit on `bail!` / `?` / `return`: `abort` releases whatever the thread holds of A.write and M.
+* Rust scope exit on `bail!` / `?` / `return`: INSIDE the write-guard section the guards are dropped one after the
+  other, each drop a micro-step of its own (`unwind`: M guard, write guard with the section's verdict, return) — a
+  recorded execution of the real store shows them as separate events and other threads' `try_write` fail in between;
+  outside the section (`try_write` failed, parent marker mismatch) `abort` releases M and returns in one step;
+* the one behaviour of parking_lot's lock that is not "held / not held": `try_write` is `compare_exchange(0, WRITER_BIT)`
+  and fails on a FREE lock while a thread is queued at it (`PARKED_BIT`): event `spur`.
+
+The programs are tied to the source's step order by `Props/C15_LockOrder.lean` (`rfl` against the generated step lists)
+and to executions of the real code by the lock recorder + `Api/Locks2Replay.lean` (`Props/C15_Conformance.lean`): the
+unwinding path, the place of the poison check in `rollback` and `spur` are what the recorded executions made the model
+follow.
 
 **Lock order of the code**: A before M, and M is never held across a blocking acquisition: every `shared.lock()`
 guard is a temporary or a `{ … }` block that ends before the next `access_lock` call.  `wf` below is this
